@@ -122,6 +122,8 @@ Section Establish.
     if external then decl_extern var s' else decl_blob var (map fst fields) s'.
   Proof.
     intros W H. unfold outer_statement in H.
+    apply bind_inv in H as (u0 & sa & Ha & H). destruct (pres_add_type_name var _ _ _ W Ha) as [Wa _].
+    clear Ha W s. rename sa into s, Wa into W.
     apply bind_inv in H as (bt & s0 & H0 & H).
     assert (s0 = s /\ bt = N.succ_pos var) as [-> ->].
     { unfold var_ty in H0. destruct (PositiveMap.find _ kinds); [|discriminate]. now injection H0. }
@@ -151,6 +153,8 @@ Section Establish.
     decl_enum var (map fst variants) s'.
   Proof.
     intros W H. unfold outer_statement in H.
+    apply bind_inv in H as (u0 & sa & Ha & H). destruct (pres_add_type_name var _ _ _ W Ha) as [Wa _].
+    clear Ha W s. rename sa into s, Wa into W.
     apply bind_inv in H as (bt & s0 & H0 & H).
     assert (s0 = s /\ bt = N.succ_pos var) as [-> ->].
     { unfold var_ty in H0. destruct (PositiveMap.find _ kinds); [|discriminate]. now injection H0. }
